@@ -445,6 +445,9 @@ class RAlg(_Alg):
     def fn(self, name, a):
         a = SymNum.lift(a)
         c = self.ctx
+        if name not in UF:
+            # any other one-argument library function: a deterministic function of its argument
+            UF[name] = z3.Function(name, R, R)
         t = UF[name](a.t)
         if name == "sqrt":
             c.safety_check("sqrt-domain", a.t >= 0)
@@ -472,6 +475,17 @@ class RAlg(_Alg):
             c.fact(("erfc", t), z3.And(t > 0, t < 2), "sign", t)
         c.apps.setdefault(name, {})[t.get_id()] = (t, a.t)
         return SymNum(t, KFLOAT)
+
+
+    _F2 = {}
+
+    def fn2(self, name, a, b, commutative=False):
+        a, b = SymNum.lift(a), SymNum.lift(b)
+        if name == "hypot":
+            return self.fn("sqrt", self.binop("+", self.binop("*", a, a), self.binop("*", b, b)))
+        if name not in self._F2:
+            self._F2[name] = z3.Function(name, R, R, R)
+        return SymNum(self._F2[name](a.t, b.t), KFLOAT)
 
 
 class UAlg(_Alg):
@@ -522,7 +536,20 @@ class UAlg(_Alg):
 
     def fn(self, name, a):
         a = SymNum.lift(a)
+        if name not in self._F:
+            self._F[name] = z3.Function("f" + name, R, R)
         return SymNum(self._F[name](a.t), KFLOAT)
+
+    _F2 = {}
+
+    def fn2(self, name, a, b, commutative=False):
+        """a two-argument library function (hypot, atan2, fmod, ...) as its own uninterpreted
+        float operation: not identified with any formula built from other operations"""
+        a, b = SymNum.lift(a), SymNum.lift(b)
+        if name not in self._F2:
+            self._F2[name] = z3.Function("f" + name, R, R, R)
+        x, y = _order(a.t, b.t) if commutative else (a.t, b.t)
+        return SymNum(self._F2[name](x, y), KFLOAT)
 
 
 def _is_zero(t):
@@ -581,10 +608,36 @@ class SymMath:
             return abs(x)
         return _math.fabs(x)
 
+    def copysign(self, x, y):
+        if not any(isinstance(v, (SymNum, SymBool)) for v in (x, y)):
+            return _math.copysign(x, y)
+        lx, ly = SymNum.lift(x), SymNum.lift(y)
+        # the sign of a zero y is not represented (no signed zeros in either mode): y = 0 counts as +0
+        ax = abs(lx)
+        r = _ite_num(ly.t >= 0, ax, -ax)
+        return SymNum(r.t, KFLOAT)
+
+    def hypot(self, *a):
+        if not any(isinstance(v, (SymNum, SymBool)) for v in a):
+            return _math.hypot(*a)
+        if len(a) != 2:
+            raise EngineError("math.hypot with other than two arguments is not modelled")
+        return cur().alg.fn2("hypot", a[0], a[1], commutative=True)
+
+    def pow(self, x, y):
+        if not any(isinstance(v, (SymNum, SymBool)) for v in (x, y)):
+            return _math.pow(x, y)
+        return sym_float(SymNum.lift(x) ** y)
+
     def isfinite(self, x):
         if isinstance(x, SymNum):
             return True
         return _math.isfinite(x)
+
+    def isinf(self, x):
+        if isinstance(x, SymNum):
+            return False
+        return _math.isinf(x)
 
     def isnan(self, x):
         if isinstance(x, SymNum):
@@ -609,6 +662,13 @@ class SymMath:
 
         def g(*a, **k):
             if any(isinstance(v, (SymNum, SymBool)) for v in a):
+                # not modelled individually: a deterministic (uninterpreted) function of its arguments
+                if k or name in ("floor", "ceil", "trunc", "frexp", "modf", "fsum", "prod", "dist", "isqrt", "gcd", "lcm", "comb", "perm", "factorial", "ldexp"):
+                    raise EngineError(f"math.{name} on a symbolic value is not modelled")
+                if len(a) == 1:
+                    return cur().alg.fn("math_" + name, a[0])
+                if len(a) == 2:
+                    return cur().alg.fn2("math_" + name, a[0], a[1])
                 raise EngineError(f"math.{name} on a symbolic value is not modelled")
             return f(*a, **k)
         return g if callable(f) else f
@@ -665,6 +725,11 @@ def _ite_num(c, a, b):
 
 class MergeFail(Exception):
     pass
+
+
+class UncutLoop(EngineError):
+    """the code iterates a container of symbolic length in a way no loop contract covers: the
+    unbounded proof cannot be attempted on this tree (the shape-bounded obligations still decide)"""
 
 
 def per_path(obj):
@@ -873,6 +938,9 @@ class AnyObj:
         to ITER_BOUND (longer containers are excluded by a recorded assumption) and each
         element is a number of symbolic kind or a non-number object (strings yield strings)."""
         c = cur()
+        if self.elem is not None:
+            # a container of symbolic *length* (the unbounded harness): only a loop cut can handle it
+            raise UncutLoop(f"loop over the symbolic-length container '{self.name}' is outside the loop-cut fragment")
         if not c.decide(self._has_len()):
             raise TypeError(f"'{self.name}' object is not iterable")
         if "_items" not in self.__dict__:
